@@ -635,8 +635,11 @@ func (s *MemoryStore) Dequeue(req DequeueRequest) (DequeueResponse, error) {
 			now = s.nowFn()
 		}
 
-		s.requeueExpiredLeasesLocked(now)
+		// Prune before releasing expired leases, as the SQLite and Postgres
+		// stores do: a message whose lease has just run out is offered again by
+		// this call instead of being dropped by the age limit in the same breath.
 		s.maybePruneLocked(now)
+		s.requeueExpiredLeasesLocked(now)
 
 		var out []Envelope
 		for _, id := range s.order {
